@@ -427,6 +427,25 @@ func isNilConst(v ssa.Value) bool {
 type canonCtx struct {
 	depth int
 	seen  map[ssa.Value]bool
+	pred  map[*ssa.BasicBlock]*ssa.BasicBlock // optional: resolve phis along this path
+	subst map[ssa.Value]ssa.Value             // optional: replace these values (parameters by call arguments)
+}
+
+// canonSubst renders v (a value of a callee) with the callee's parameters replaced by the
+// arguments of one call: the value as the caller sees it.
+func canonSubst(v ssa.Value, params []*ssa.Parameter, args []ssa.Value) string {
+	sub := map[ssa.Value]ssa.Value{}
+	for i, p := range params {
+		if i < len(args) {
+			sub[p] = args[i]
+		}
+	}
+	return (&canonCtx{seen: map[ssa.Value]bool{}, subst: sub}).c(v)
+}
+
+// canonAlong is canon with phis resolved through the predecessors of a path.
+func canonAlong(v ssa.Value, pred map[*ssa.BasicBlock]*ssa.BasicBlock) string {
+	return (&canonCtx{seen: map[ssa.Value]bool{}, pred: pred}).c(v)
 }
 
 // canon renders a value structurally so that two SSA values computed by the
@@ -446,6 +465,11 @@ func (cx *canonCtx) c(v ssa.Value) string {
 	}
 	cx.depth++
 	defer func() { cx.depth-- }()
+	if cx.subst != nil {
+		if rv, ok := cx.subst[v]; ok {
+			return canon(rv)
+		}
+	}
 	switch x := v.(type) {
 	case *ssa.Parameter:
 		return "param:" + x.Name()
@@ -531,6 +555,11 @@ func (cx *canonCtx) c(v ssa.Value) string {
 		}
 		return "call " + name + "(" + strings.Join(parts, ",") + ")"
 	case *ssa.Phi:
+		if cx.pred != nil {
+			if rv := resolveAlong(x, cx.pred); rv != ssa.Value(x) {
+				return cx.c(rv)
+			}
+		}
 		cx.seen[v] = true
 		parts := []string{}
 		for _, e := range x.Edges {
@@ -804,11 +833,36 @@ func storesToField(f *ssa.Function, fv *types.Var) []*ssa.Store {
 	var out []*ssa.Store
 	eachInstr(f, func(in ssa.Instruction) {
 		if st, ok := in.(*ssa.Store); ok {
-			if fa, ok := st.Addr.(*ssa.FieldAddr); ok && fieldVar(fa.X.Type(), fa.Field) == fv {
-				out = append(out, st)
+			for _, lf := range valueLeaves(st.Addr) {
+				if fa, ok := lf.(*ssa.FieldAddr); ok && fieldVar(fa.X.Type(), fa.Field) == fv {
+					out = append(out, st)
+					break
+				}
 			}
 		}
 	})
+	return out
+}
+
+// valueLeaves expands phis: the non-phi values v can be (v itself when it is not a phi).
+func valueLeaves(v ssa.Value) []ssa.Value {
+	var out []ssa.Value
+	seen := map[ssa.Value]bool{}
+	var rec func(v ssa.Value)
+	rec = func(v ssa.Value) {
+		if seen[v] {
+			return
+		}
+		seen[v] = true
+		if ph, ok := v.(*ssa.Phi); ok {
+			for _, e := range ph.Edges {
+				rec(e)
+			}
+			return
+		}
+		out = append(out, v)
+	}
+	rec(v)
 	return out
 }
 
@@ -1223,4 +1277,115 @@ func flowsFromConstInt(v ssa.Value, c int64) bool {
 		k, ok := constInt(x)
 		return ok && k == c
 	})
+}
+
+// loopNest returns, for every block, the set of natural-loop headers whose loop contains it.
+func loopNest(f *ssa.Function) map[*ssa.BasicBlock]map[*ssa.BasicBlock]bool {
+	out := map[*ssa.BasicBlock]map[*ssa.BasicBlock]bool{}
+	for _, b := range f.Blocks {
+		out[b] = map[*ssa.BasicBlock]bool{}
+	}
+	for _, t := range f.Blocks {
+		for _, h := range t.Succs {
+			if !h.Dominates(t) {
+				continue
+			}
+			// natural loop of back edge t->h
+			body := map[*ssa.BasicBlock]bool{h: true}
+			var stack []*ssa.BasicBlock
+			if !body[t] {
+				body[t] = true
+				stack = append(stack, t)
+			}
+			for len(stack) > 0 {
+				x := stack[len(stack)-1]
+				stack = stack[:len(stack)-1]
+				for _, p := range x.Preds {
+					if !body[p] {
+						body[p] = true
+						stack = append(stack, p)
+					}
+				}
+			}
+			for b := range body {
+				out[b][h] = true
+			}
+		}
+	}
+	return out
+}
+
+// pairedPerExecution: every execution of b is preceded, in the same iteration of
+// every enclosing loop, by an execution of a (a dominates b and both sit in the
+// same loop nest).
+func pairedPerExecution(a, b ssa.Instruction) bool {
+	if a.Parent() != b.Parent() || !dominates(a, b) {
+		return false
+	}
+	ln := loopNest(a.Parent())
+	la, lb := ln[a.Block()], ln[b.Block()]
+	if len(la) != len(lb) {
+		return false
+	}
+	for h := range la {
+		if !lb[h] {
+			return false
+		}
+	}
+	return true
+}
+
+// factOracle answers whether a branch fact holds where a value flows in.
+type factOracle func(holds func(cond ssa.Value, truth bool) bool) bool
+
+// phiLeaves calls fn for every non-phi value that v can be at instruction at,
+// with a fact oracle valid for that alternative: the facts at the end of the
+// predecessor the value comes in from, plus that predecessor's own branch
+// decision towards the join.
+func phiLeaves(v ssa.Value, at ssa.Instruction, fn func(leaf ssa.Value, fact factOracle)) {
+	seen := map[*ssa.Phi]bool{}
+	var rec func(v ssa.Value, at ssa.Instruction, extra []Fact)
+	rec = func(v ssa.Value, at ssa.Instruction, extra []Fact) {
+		ph, ok := v.(*ssa.Phi)
+		if !ok || seen[ph] {
+			fn(v, func(holds func(cond ssa.Value, truth bool) bool) bool {
+				for _, e := range extra {
+					if holds(e.Cond, e.True) {
+						return true
+					}
+				}
+				return factHolds(at, holds)
+			})
+			return
+		}
+		seen[ph] = true
+		b := ph.Block()
+		for i, e := range ph.Edges {
+			if i >= len(b.Preds) || len(b.Preds[i].Instrs) == 0 {
+				rec(e, at, extra)
+				continue
+			}
+			pb := b.Preds[i]
+			term := pb.Instrs[len(pb.Instrs)-1]
+			var ex []Fact
+			if iff, isIf := term.(*ssa.If); isIf && len(pb.Succs) == 2 && pb.Succs[0] != pb.Succs[1] {
+				c, pos := stripNot(iff.Cond)
+				ex = []Fact{{iff, c, (pb.Succs[0] == b) == pos}}
+			}
+			rec(e, term, ex)
+		}
+		seen[ph] = false
+	}
+	rec(v, at, nil)
+}
+
+// fieldAddrOf: the field address a store writes through (the first one when the
+// address is selected among several by a phi).
+func fieldAddrOf(st *ssa.Store) *ssa.FieldAddr {
+	for _, lf := range valueLeaves(st.Addr) {
+		if fa, ok := lf.(*ssa.FieldAddr); ok {
+			return fa
+		}
+	}
+	panic("store does not write through a field address")
 }
